@@ -115,6 +115,26 @@ fn text_case(rng: &mut crate::rng::Rng, n: usize, rep: u64) -> Result<Vec<u8>, (
         chars.push(char::from_u32(0x21 + rng.below(0x5E) as u32).unwrap());
     }
     rng.shuffle(&mut chars);
+    // code points that text-handling code tends to treat specially, at the first / last position (same UTF-8 width as
+    // the character they replace, so the byte length stays n)
+    const SPECIAL3: &[u32] = &[0xFEFF, 0xFFFE, 0xFFFD, 0x200B, 0x200D, 0x200E, 0x202E, 0x2028, 0x2029, 0x3000, 0xFFFF, 0x0800];
+    const SPECIAL2: &[u32] = &[0x0085, 0x00A0, 0x00AD, 0x0301, 0x07FF, 0x0080];
+    const SPECIAL1: &[u32] = &[0x00, 0x09, 0x0A, 0x0D, 0x1B, 0x20, 0x22, 0x5C, 0x7F];
+    if !chars.is_empty() && rep % 3 != 0 {
+        let pos = if rep % 2 == 0 { 0 } else { chars.len() - 1 };
+        let w = chars[pos].len_utf8();
+        let pool: &[u32] = match w {
+            3 => SPECIAL3,
+            2 => SPECIAL2,
+            1 => SPECIAL1,
+            _ => &[],
+        };
+        if !pool.is_empty() {
+            if let Some(c) = char::from_u32(pool[rng.below(pool.len() as u64) as usize]) {
+                chars[pos] = c;
+            }
+        }
+    }
     let s: String = chars.iter().collect();
     let case = json!({"kind":"text1029","chars":s.chars().map(|c| c as u32).collect::<Vec<u32>>()});
     if s.len() != n || s.chars().count() > 127 {
@@ -161,7 +181,7 @@ fn lat1_string(rng: &mut crate::rng::Rng, n: usize) -> String {
 pub fn run(ctx: &Ctx, replay: Option<&J>) -> CheckResult {
     let rule = "every list-bearing type of the pinned layout table (legacy observables 1001-1004/1009-1012, 1013, network RTK 1015-1017/1037-1039/1030/1031/1034/1035/1303/1304, SSR \
         1057/1058/1060-1064/1066-1068) x every n=0..=capacity with elements drawn from decoded zero/ones/random vectors in varying order; descriptor strings of 1007/1008/1033/1021/1022/\
-        1300-1302 for every length 0..=31, the 1302 link list 0..=7, and the 1029 text for every byte length 0..=255 (1/2/3-byte characters, <=127 characters). oracle: build Ok, payload<=1023 bytes, count read from the wire at the pinned offset/width == n, decode == input \
+        1300-1302 for every length 0..=31, the 1302 link list 0..=7, and the 1029 text for every byte length 0..=255 (1/2/3-byte characters, <=127 characters, special code points such as U+FEFF, U+200D, U+2028, NUL, backslash at the first / last position). oracle: build Ok, payload<=1023 bytes, count read from the wire at the pinned offset/width == n, decode == input \
         (same number of elements, same order). Every count value above the capacity that the field can express (1057/1063: 61-63, 1060/1066: 40-63, 8-bit string counts 32-255) with a long \
         body => Corrupt; every byte truncation of full-length and mid-length frames (re-framed, valid CRC) => Corrupt (Empty below 2 bytes). non-trivial = all (n in {0,1,cap-1,cap} and \
         damaged frames are classed); distinct = (type, n, repetition) / hash of damaged payload"
